@@ -18,11 +18,21 @@ def build(kind, s):
             if s.startswith("AND:"):                                   # the other construction route: a & b
                 a, _, c = s[4:].partition("|")
                 return SpecifierSet(a) & SpecifierSet(c)
+            if s.startswith("ANDS:"):                                  # a & "text"
+                a, _, c = s[5:].partition("|")
+                return SpecifierSet(a) & c
+            if s.startswith("OBJ:"):                                   # from Specifier objects
+                return SpecifierSet([Specifier(t) for t in s[4:].split("|") if t.strip()])
             return SpecifierSet(s)
         if kind == "marker":
             if s.startswith("REQ:"): return Requirement("x; " + s[4:]).marker      # the other construction route
             return Marker(s)
-        if kind == "requirement": return Requirement(s)
+        if kind == "requirement":
+            if s.startswith("NAME:"):                                  # a Requirement is a mutable record: the name assigned after parsing
+                nm, _, t = s[5:].partition("|")
+                r = Requirement(t); r.name = nm
+                return r
+            return Requirement(s)
         if kind == "tag":
             parts = s.split("-")
             return Tag(*parts) if len(parts) == 3 else None
@@ -37,6 +47,24 @@ ENVS = [dict(os_name=a, sys_platform=c, python_version=d, python_full_version=d 
         for a in ("posix", "nt") for c in ("linux", "win32") for d in ("3.8", "3.12") for e in ("", "foo-bar", "x")]
 ENVS += [dict(ENVS[0], platform_version=v, os_name=v, platform_release=v) for v in ENVS_EXTRA_VALUES]
 
+import re
+def near(texts):
+    """candidates next to the versions the texts themselves name (the fixed battery sits near 1.0 only)"""
+    out = []
+    for t in texts:
+        for cl in re.split(r"[,|]", re.sub(r"^(AND|ANDS|OBJ):", "", t)):
+            x = cl.strip().lstrip("~=!<>").strip()
+            if x.endswith(".*"): x = x[:-2]
+            try: v = Version(x)
+            except InvalidVersion: continue
+            rel = list(v.release); e = "%d!" % v.epoch if v.epoch else ""
+            base = e + ".".join(map(str, rel)); nxt = e + ".".join(map(str, rel[:-1] + [rel[-1] + 1]))
+            out += [str(v), v.public, base, base + ".0", base + "a1", base + ".post1", base + ".dev1", base + "+loc", nxt, nxt + "a1", nxt + ".dev0", base + ".1"]
+    seen = []
+    for c in out:
+        if c not in seen: seen.append(c)
+    return seen[:14]
+
 def behaviour(kind, o, extra_cands=()):
     """the observable behaviour the property names for each type"""
     if kind == "version":
@@ -47,13 +75,20 @@ def behaviour(kind, o, extra_cands=()):
             for arg in (None, True, False):
                 try: out.append(o.contains(c, prereleases=arg))
                 except InvalidVersion: out.append("EV")
+        for arg in (None, True, False):
+            out.append(tuple(o.filter(list(CANDS) + list(extra_cands), prereleases=arg)))
+        out.append(o.prereleases)
         return tuple(out)
     if kind == "set":
         out = []
         for c in list(CANDS) + list(extra_cands):
-            for arg in (None, True):
+            for arg in (None, True, False):
                 try: out.append(o.contains(c, prereleases=arg))
                 except InvalidVersion: out.append("EV")
+            out.append(o.contains(c, installed=True))
+        for arg in (None, True, False):
+            out.append(tuple(o.filter(list(CANDS) + list(extra_cands), prereleases=arg)))
+        out.append(o.prereleases)
         return tuple(out)
     if kind == "marker":
         out = []
@@ -73,15 +108,25 @@ def observe(cmd, args):
         if x is None or y is None: return "E"
         return b(x == y)
     if cmd.startswith("sp."): return spec_impl.observe(cmd, args)
+    if cmd.startswith("s."):
+        import sets_impl
+        return sets_impl.observe(cmd, args)
     if cmd == "law.eq":
         kind, texts = args[0], args[1:]
         objs = [build(kind, t) for t in texts]
         objs = [(t, o) for t, o in zip(texts, objs) if o is not None]
-        extra = [t for t in texts if kind == "version"]
+        extra = near(texts) if kind in ("specifier", "set") else ()
         for t, x in objs:
             if not (x == x) or (x != x): return "%s not equal to itself: %r" % (kind, t)
             if hash(x) != hash(build(kind, t)): return "%s hash differs between two constructions of %r" % (kind, t)
             if not (x == build(kind, t)): return "%s: two constructions of %r are unequal" % (kind, t)
+            if kind == "requirement":
+                y = Requirement(str(x))
+                if not (y == x) or hash(y) != hash(x): return "requirement: str(x) does not parse back to an equal requirement with the same hash: %r" % t
+        memo = {}
+        def beh(t, o):
+            if id(o) not in memo: memo[id(o)] = behaviour(kind, o, extra)
+            return memo[id(o)]
         for (t1, x), (t2, y) in itertools.product(objs, repeat=2):
             e = x == y
             if e != (y == x): return "%s == not symmetric: %r %r" % (kind, t1, t2)
@@ -89,7 +134,7 @@ def observe(cmd, args):
             if e:
                 if hash(x) != hash(y): return "%s equal but hashes differ: %r %r" % (kind, t1, t2)
                 if len({x, y}) != 1 or {x: 1}.get(y) != 1: return "%s equal but distinct in set/dict: %r %r" % (kind, t1, t2)
-                bx, by = behaviour(kind, x), behaviour(kind, y)
+                bx, by = beh(t1, x), beh(t2, y)
                 if bx != by: return "%s equal but behave differently: %r %r" % (kind, t1, t2)
             for t3, z in objs:
                 if e and (y == z) and not (x == z): return "%s == not transitive: %r %r %r" % (kind, t1, t2, t3)
